@@ -16,6 +16,7 @@ mod c13;
 mod c14;
 mod c15;
 mod c16;
+mod c17;
 mod c20;
 mod ctx;
 mod docs;
@@ -53,6 +54,7 @@ fn registry(id: &str) -> Option<Box<dyn Check>> {
         "C14" => Some(Box::new(c14::C14)),
         "C15" => Some(Box::new(c15::C15)),
         "C16" => Some(Box::new(c16::C16)),
+        "C17" => Some(Box::new(c17::C17)),
         "C20" => Some(Box::new(c20::C20)),
         _ => None,
     }
